@@ -88,3 +88,36 @@ Theorem verify_store_incomplete_refuted : forall loc,
 Proof.
   intros [|]; eexists; eexists; eexists; (split; [vm_compute; reflexivity|split; [vm_compute; reflexivity|split; vm_compute; reflexivity]]).
 Qed.
+
+(* ------------------------------------------------------------------------------------------ *)
+(* a workload may have NO files (an empty directory / a skeleton of empty sub-directories): its items
+   are just the directory object of the empty listing; the theorems cover it - nothing in them asks
+   for a non-empty file list *)
+Theorem empty_workload : forall (H : bytes -> oid) (ser : list (list N * oid) -> bytes) (dirid : bytes -> oid)
+    loc (wkls : list (list (list N * bytes))) ps sched w' ps',
+  consistent (map (items_of H ser dirid) wkls) ->
+  legal_all loc (map (items_of H ser dirid) wkls) ps = true ->
+  run (map (items_of H ser dirid) wkls) sched w0 ps = Some (w', ps') -> all_done ps' = true ->
+  In [] wkls ->
+  items_of H ser dirid [] = [(dirid (ser []), ser [])] /\
+  view w' (dirid (ser [])) = Some (ser [], loc).
+Proof.
+  intros H ser dirid loc wkls ps sched w' ps' Hc Hl Hr Hd Hin. split; [reflexivity|].
+  destruct (directory_object H ser dirid loc wkls ps sched w' ps' Hc Hl Hr Hd [] Hin) as [Hv _].
+  exact Hv.
+Qed.
+
+(* two writers without files + one with a file, interleaved: accepted *)
+Definition ex_d : oid := [100; 55; 1].
+Definition ex_l : bytes := [91; 93].
+Definition ex_empty_its : items := [(ex_d, ex_l)].
+Definition ex_tr_empty : list (nat * step) :=
+  [(0%nat, ExistsCheck ex_d false); (1%nat, ExistsCheck ex_d false); (2%nat, ExistsCheck ex_o false);
+   (0%nat, Mkdir [100; 55]); (0%nat, CopyTmp 0 ex_d); (1%nat, Mkdir [100; 55]); (1%nat, CopyTmp 0 ex_d);
+   (2%nat, Mkdir [97; 97]); (0%nat, RenameTmp 0 1); (1%nat, RenameTmp 0 1); (1%nat, Rename 1 ex_d);
+   (2%nat, CopyTmp 0 ex_o); (0%nat, Rename 1 ex_d); (1%nat, Chmod ex_d); (2%nat, Rename 0 ex_o);
+   (0%nat, Chmod ex_d); (2%nat, Chmod ex_o); (2%nat, ExistsCheck ex_d true);
+   (0%nat, StateUpsert [ex_d]); (1%nat, StateUpsert [ex_d]); (2%nat, StateUpsert [ex_o])].
+Example ex_empty_workloads_valid :
+  valid_trace true [ex_empty_its; ex_empty_its; ex_its ++ ex_empty_its] ex_tr_empty = true.
+Proof. vm_compute. reflexivity. Qed.
